@@ -18,4 +18,21 @@ QFields(D) ==
 \* interior probes: at least two samples away from every border (second derivatives apply a first-order scheme twice)
 QProbes(n) == IF Len(n) = 2 THEN << <<2, 2>>, <<3, 3>>, <<2, n[2] - 3>>, <<n[1] - 3, n[2] - 3>> >>
               ELSE << <<2, 2, 2>>, <<3, 3, 4>>, <<n[1] - 3, n[2] - 3, n[3] - 3>> >>
+\* ---------------------------------------------------------------- thorough lattice
+TShapes == {<<7, 6>>, <<8, 8>>, <<9, 6>>, <<6, 11>>, <<6, 7, 8>>, <<6, 6, 7>>, <<7, 6, 6>>}   \* every axis >= 6: probes stay two samples away from every border
+TSpacings(D) == IF D = 2 THEN {<<One, One>>, <<R(1,2), R(3,2)>>, <<R(5,4), R(3,4)>>, <<Two, R(1,4)>>}
+                ELSE {<<One, R(1,2), Two>>, <<One, One, One>>, <<R(3,2), R(1,4), R(1,2)>>}
+TFields(D) == QFields(D) \cup
+    (IF D = 2 THEN
+        {<<C_(RI(3), <<Zero, Zero>>, << <<One, Zero>>, <<Zero, Zero>> >>), C_(Zero, <<Zero, Zero>>, << <<Zero, One>>, <<Zero, Zero>> >>)>>,       \* pure squares / cross term
+         <<C_(R(1,2), <<RI(-3), R(5,2)>>, << <<R(-1,4), Two>>, <<Zero, R(3,4)>> >>), C_(RI(-1), <<R(7,4), RI(-2)>>, << <<R(1,2), RI(-1)>>, <<Zero, R(5,4)>> >>)>>}
+     ELSE
+        {<<C_(Zero, <<Zero, Zero, Zero>>, << <<One, Zero, Zero>>, <<Zero, Zero, Zero>>, <<Zero, Zero, Zero>> >>),
+           C_(Zero, <<Zero, Zero, Zero>>, << <<Zero, One, Zero>>, <<Zero, Zero, Zero>>, <<Zero, Zero, Zero>> >>),
+           C_(Zero, <<Zero, Zero, Zero>>, << <<Zero, Zero, Zero>>, <<Zero, Zero, One>>, <<Zero, Zero, Zero>> >>)>>,
+         <<C_(R(1,2), <<RI(-3), R(5,2), One>>, << <<R(-1,4), Two, Zero>>, <<Zero, R(3,4), RI(-1)>>, <<Zero, Zero, R(1,2)>> >>),
+           C_(RI(-1), <<R(7,4), RI(-2), Zero>>, << <<R(1,2), RI(-1), One>>, <<Zero, R(5,4), Zero>>, <<Zero, Zero, RI(-2)>> >>),
+           C_(Two, <<One, One, RI(-1)>>, << <<Zero, R(1,2), R(1,2)>>, <<Zero, RI(-1), One>>, <<Zero, Zero, R(3,4)>> >>)>>})
+TProbes(n) == IF Len(n) = 2 THEN << <<2, 2>>, <<3, 3>>, <<2, n[2] - 3>>, <<n[1] - 3, n[2] - 3>>, <<n[1] - 3, 2>>, <<3, 2>> >>
+              ELSE << <<2, 2, 2>>, <<3, 3, 2>>, <<n[1] - 3, n[2] - 3, n[3] - 3>>, <<2, n[2] - 3, 2>> >>
 =============================================================================
